@@ -178,7 +178,14 @@ pub fn main(a: Args) -> i32 {
                 0 => {}                                              // absent
                 1 => { let mut c2 = c.clone(); if let Some(b) = c2.first_mut() { *b ^= 0x20; } dst.push((p, c2, s, 0)); }  // same size + mtime (maybe other bytes)
                 2 => { let mut c2 = c.clone(); c2.push(b'!'); dst.push((p, c2, s, 0)); }                                   // different size
-                3 => dst.push((p, c.clone(), s + 1 + r.below(1000) as i64, 0)),                                          // different mtime
+                3 => {
+                    // different mtime (newer or older), same size; half of the time other bytes (an in-place, length-preserving edit)
+                    let mut c2 = c.clone();
+                    if r.chance(1, 2) { if let Some(b) = c2.last_mut() { *b ^= 0x01; } }
+                    let d = 1 + r.below(1000) as i64;
+                    let m2 = if r.chance(1, 2) && s - d >= 0 { s - d } else { s + d };
+                    dst.push((p, c2, m2, 0));
+                }
                 _ => dst.push((p, c.clone(), s, 0)),                                                                      // identical
             }
         }
